@@ -520,3 +520,43 @@ Example ex_c10_executed_kl_hypotheses :
   @symmetric RF 2 (mapR exq_P) /\ @PD RF ROrd 2 (mapR exq_P).
 Proof. exact ex_executed_kl_hyps. Qed.
 Print Assumptions ex_c10_executed_kl_hypotheses.
+
+(* ---- index grammar: an Ellipsis that matches ZERO dimensions may stand at EVERY position of the tuple (leading,
+   between two components, TRAILING) without changing the result: the tuple is first stripped of it and only then split
+   into batch part / event component (Proofs/C10_ellipsis.v).  With c10_getitem_last_component / _int_component this
+   gives the event positions of d[b_1, .., b_k, x, ...], d[b_1, .., ..., .., x], d[..., b_1, .., x] for all ranks. *)
+From GPV Require Import Proofs.C10_ellipsis.
+Theorem c10_getitem_zero_dim_ellipsis_anywhere :
+  forall dim n (l1 l2 : list pyidx), Z.of_nat (length l1 + length l2) = dim ->
+    mvn_getitem dim n (map EI l1 ++ EE :: map EI l2) = mvn_getitem dim n (map EI (l1 ++ l2)).
+Proof. exact mvn_getitem_zero_dim_ellipsis. Qed.
+Print Assumptions c10_getitem_zero_dim_ellipsis_anywhere.
+
+Theorem c10_getitem_trailing_ellipsis_component :
+  forall dim n (b : list pyidx) x, (Z.of_nat (length b) + 1 = dim)%Z -> is_int x = false ->
+    mvn_getitem dim n (map EI b ++ [EI x; EE]) =
+      match idx_positions n x with Some l => Some ((dim - 1)%Z, Some (1%Z, l)) | None => None end.
+Proof. exact mvn_getitem_trailing_ellipsis. Qed.
+Print Assumptions c10_getitem_trailing_ellipsis_component.
+
+Theorem c10_getitem_trailing_ellipsis_int_component :
+  forall dim n (b : list pyidx) i, (Z.of_nat (length b) + 1 = dim)%Z ->
+    mvn_getitem dim n (map EI b ++ [EI (IInt i); EE]) =
+      match norm_index n i with Some k => Some ((dim - 1)%Z, Some (0%Z, [k])) | None => None end.
+Proof. exact mvn_getitem_trailing_ellipsis_int. Qed.
+Print Assumptions c10_getitem_trailing_ellipsis_int_component.
+
+(* one component too many raises wherever the Ellipsis stands *)
+Theorem c10_getitem_too_long_with_ellipsis_raises :
+  forall dim n (l1 l2 : list pyidx), (dim < Z.of_nat (length l1 + length l2))%Z ->
+    mvn_getitem dim n (map EI l1 ++ EE :: map EI l2) = None.
+Proof. exact mvn_getitem_too_long_ellipsis. Qed.
+Print Assumptions c10_getitem_too_long_with_ellipsis_raises.
+
+Example ex_c10_getitem_ellipsis_positions :
+  (mvn_getitem 3 4 [EI (IInt 0); EI (IInt 1); EI (ISlice (mk (Some 1) (Some 3) None)); EE] = Some (2, Some (1, [1; 2]))
+  /\ mvn_getitem 3 4 [EI (IInt 0); EE; EI (IInt 1); EI (ISlice (mk (Some 1) (Some 3) None))] = Some (2, Some (1, [1; 2]))
+  /\ mvn_getitem 3 4 [EE; EI (IInt 0); EI (IInt 1); EI (ISlice (mk (Some 1) (Some 3) None))] = Some (2, Some (1, [1; 2]))
+  /\ mvn_getitem 2 3 [EI (ISlice full_slice); EI (ITensor [2; 1; 0]); EE] = Some (1, Some (1, [2; 1; 0])))%Z.
+Proof. exact ex_mvn_getitem_ellipsis_positions. Qed.
+Print Assumptions ex_c10_getitem_ellipsis_positions.
